@@ -251,7 +251,8 @@ class SyncedDict(SyncedCollection, MutableMapping):
         # them in the same order as every other writer.
         self._load_and_save._acquire_locks()
         try:
-            self._data = {}
+            # Clear in place: buffers may hold a reference to this container.
+            self._data.clear()
             self._save()
         finally:
             self._load_and_save._release_locks()
